@@ -129,7 +129,9 @@ def load_registered_codemods(ep_filter: Optional[Callable[[EntryPoint], bool]] =
     registry = CodemodRegistry()
     logger.debug("loading registered codemod collections")
 
-    for entry_point in set(entry_points().select(group="codemods")):
+    for entry_point in sorted(
+        set(entry_points().select(group="codemods")), key=lambda ep: ep.name
+    ):
         if ep_filter and not ep_filter(entry_point):
             logger.debug(
                 '- skipping codemod collection "%s" from "%s as requested"',
